@@ -45,19 +45,25 @@ pub struct M07<C: Suite> {
     pks: Vec<PublicKey<C>>,
     msg: Vec<u8>,
     sigs: Vec<Vec<Signature<C>>>,
+    rsigs: Vec<Vec<<C::R as rf::RefSuite>::Sig>>,
+    rpks: std::collections::HashMap<Vec<u8>, <C::R as rf::RefSuite>::Pk>,
     _c: PhantomData<C>,
 }
 
 impl<C: Suite> M07<C> {
     pub fn new(tier: Tier, seed: u64) -> Self {
         let ns: Vec<usize> = if tier.thorough() { (2..=64).collect() } else { vec![2, 3, 4, 5, 8, 16] };
-        // every n up to 70 (block sizes 16 / 32 / 64 of batched implementations), and the 7 / 8 / 16 bit boundaries
-        let ns_plain: Vec<usize> = (2..=70).chain([127, 128, 129, 255, 256, 257]).filter(|n| !ns.contains(n)).collect();
+        // every n up to 300 (block sizes of batched implementations, the 7 / 8 bit boundaries), and 512 / 1000 / 1024 with neighbours
+        let ns_plain: Vec<usize> = (2..=300).chain([511, 512, 513, 1000, 1023, 1024, 1025, 4095, 4096, 4097, 4099]).filter(|n| !ns.contains(n)).collect();
         let nk = ns.iter().chain(ns_plain.iter()).max().unwrap() + 1;
-        let sks: Vec<SecretKey<C>> = (0..nk).map(|i| SecretKey::<C>::from_hash(format!("c07-key-{}", i))).collect();
-        let pks = sks.iter().map(|s| s.public_key()).collect();
+        let sks: Vec<SecretKey<C>> = par_table(nk, |i| SecretKey::<C>::from_hash(format!("c07-key-{}", i)));
+        let pks: Vec<PublicKey<C>> = par_table(nk, |i| sks[i].public_key());
         let msg = msg_of(seed, 12, 3);
-        let sigs = SCHEMES.iter().map(|s| sks.iter().map(|k| k.sign(lib_scheme(*s), &msg).unwrap()).collect()).collect();
+        // (MessageAugmentation signatures are only used by the short accumulation lists)
+        let sigs: Vec<Vec<Signature<C>>> = SCHEMES.iter().map(|s| par_table(if *s == Scheme::Aug { 8.min(nk) } else { nk }, |i| sks[i].sign(lib_scheme(*s), &msg).unwrap())).collect();
+        // the same points decoded (and validated) once by the reference
+        let rsigs: Vec<Vec<<C::R as rf::RefSuite>::Sig>> = sigs.iter().map(|l| par_table(l.len(), |i| <C::R as rf::RefSuite>::sig_from(&pt(l[i].as_raw_value())).unwrap())).collect();
+        let rpks: std::collections::HashMap<Vec<u8>, <C::R as rf::RefSuite>::Pk> = par_table(nk, |i| (Vec::<u8>::from(&pks[i]), <C::R as rf::RefSuite>::pk_from(&Vec::<u8>::from(&pks[i])).unwrap())).into_iter().collect();
         M07 {
             tier,
             ns,
@@ -66,6 +72,8 @@ impl<C: Suite> M07<C> {
             pks,
             msg,
             sigs,
+            rsigs,
+            rpks,
             _c: PhantomData,
         }
     }
@@ -191,7 +199,7 @@ impl<C: Suite> Model for M07<C> {
                     }
                 };
                 // equals the plain group sum (reference arithmetic)
-                let rsum = rf::aggregate::<C::R>(&sigs.iter().map(|x| <C::R as rf::RefSuite>::sig_from(&pt(x.as_raw_value())).unwrap()).collect::<Vec<_>>());
+                let rsum = rf::aggregate::<C::R>(&self.rsigs[s.idx()][..n]);
                 let eq = pt(ms.as_raw_value()) == rf::enc(&rsum);
                 o.outcome(if eq { "sum:equal" } else { "sum:differs" });
                 o.expect(&format!("C07:multisig-is-group-sum:{}:{}", g, s.name()), eq, "reference point sum", "differs");
@@ -275,7 +283,11 @@ impl<C: Suite> Model for M07<C> {
                 o.expect(&format!("C07:multikey-constructors-agree:{}", g), mpk == mpk2, "equal", "differ");
                 let mut rk = <<C::R as rf::RefSuite>::Pk as bls12_381_plus::group::Group>::identity();
                 for k in &keys {
-                    rk += <C::R as rf::RefSuite>::pk_from(&Vec::<u8>::from(k)).unwrap();
+                    let kb = Vec::<u8>::from(k);
+                    rk += match self.rpks.get(&kb) {
+                        Some(p) => *p,
+                        None => <C::R as rf::RefSuite>::pk_from(&kb).unwrap(),
+                    };
                 }
                 o.expect(&format!("C07:multikey-is-group-sum:{}", g), Vec::<u8>::from(&mpk) == rf::enc(&rk), "reference point sum", "differs");
                 if edit.is_none() && n <= 5 {
